@@ -6,7 +6,9 @@ import (
 	"encoding/json"
 	"fmt"
 	"os"
+	"path/filepath"
 	"runtime"
+	"sort"
 	"strings"
 	"sync"
 
@@ -16,10 +18,11 @@ import (
 const rule = "a case is non-trivial when its sources hold at least one byte in total; distinct = distinct (reader, parameters, sources with scripts, consumption mode/ops) tuples"
 
 type runner struct {
-	res   *lib.Result
-	drv   *lib.Drv
-	batch []*Case
-	dead  bool
+	res     *lib.Result
+	drv     *lib.Drv
+	batch   []*Case
+	dead    bool
+	sampled map[string]bool
 }
 
 func (r *runner) emit(c *Case) {
@@ -130,8 +133,9 @@ func (r *runner) flush() {
 		}
 		r.res.Count(c.Mode+"/"+fmt.Sprint(c.Buf, c.Closes)+"/"+line, nontrivial)
 		classify(c, o, r.res)
-		if nontrivial && len(c.Srcs[0].Script) > 1 {
-			r.res.Sample(c)
+		if k := c.Kind + "/" + c.Mode; nontrivial && len(c.Srcs[0].Script) > 1 && !r.sampled[k] && len(c.Srcs[0].Content) <= 64 {
+			r.sampled[k] = true
+			r.res.Sample(map[string]any{"case": c, "model_request": line, "implementation_answer": o.answer(c.Kind)})
 		}
 		for _, v := range monitor(c, o) {
 			r.res.Violate(v.id, v.what, c)
@@ -170,7 +174,7 @@ func main() {
 		drv = nil
 	}
 	defer drv.Close()
-	r := &runner{res: res, drv: drv}
+	r := &runner{res: res, drv: drv, sampled: map[string]bool{}}
 
 	if f.Replay != "" {
 		raw, err := os.ReadFile(f.Replay)
@@ -210,9 +214,26 @@ func main() {
 
 	thorough := f.Tier == "thorough" || f.Search
 	rnd := lib.NewRand(f.Seed)
+	// corpus first: minimised past findings (each file is one Case as JSON)
+	if dir := os.Getenv("VERIF_DIR"); dir != "" {
+		files, _ := filepath.Glob(filepath.Join(dir, "corpus", "C16", "*.json"))
+		sort.Strings(files)
+		for _, fn := range files {
+			raw, err := os.ReadFile(fn)
+			var c Case
+			if err != nil || json.Unmarshal(raw, &c) != nil || c.Kind == "" {
+				res.Note("corpus file unreadable: " + fn)
+				continue
+			}
+			res.Hit("corpus")
+			r.emit(&c)
+		}
+		r.flush()
+	}
 	genLimit(thorough, rnd.Fork(), r.emit)
 	genMulti(thorough, rnd.Fork(), r.emit)
 	genTee(thorough, r.emit)
+	genWriteToFailingWriter(r.emit)
 	nLarge, nOps := 400, 4000
 	if thorough {
 		nLarge, nOps = 3000, 40000
